@@ -58,6 +58,7 @@ import (
 	"encoding/binary"
 	"fmt"
 	"io"
+	"math"
 	"sync"
 
 	"github.com/RoaringBitmap/roaring"
@@ -148,8 +149,9 @@ func (idx *RoaringMetadataIndex) Add(node MetadataNode) error {
 		case int64:
 			idx.addNumeric(key, docID, v)
 		case float64:
-			// Convert float to int by multiplying by 100 (for 2 decimal precision)
-			idx.addNumeric(key, docID, int64(v*100))
+			// Convert float to int by multiplying by 100 (for 2 decimal precision),
+			// rounding so that e.g. 19.99 (19.99*100 = 1998.9999...) maps to 1999
+			idx.addNumeric(key, docID, int64(math.Round(v*100)))
 		case string:
 			idx.addCategorical(key, v, docID)
 		case bool:
@@ -409,8 +411,9 @@ func toInt64(value interface{}) (int64, error) {
 	case int64:
 		return v, nil
 	case float64:
-		// Convert float to int by multiplying by 100 (for 2 decimal precision)
-		return int64(v * 100), nil
+		// Convert float to int by multiplying by 100 (for 2 decimal precision),
+		// rounding exactly as Add does so stored and queried values agree
+		return int64(math.Round(v * 100)), nil
 	default:
 		return 0, fmt.Errorf("cannot convert %T to int64", value)
 	}
